@@ -195,3 +195,21 @@ Proof.
     + apply lock_step_timeout_replies.
   - exfalso. assert (c_timeout c1 = 0) as Z0 by (destruct C1 as [->|[x ->]]; auto). rewrite Z0 in TO. discriminate.
 Qed.
+
+(* (c), second half: whenever Lock itself answers TIMEOUT, the reply is the immediate one for this request and nothing
+   of the request is retained (TimeZero.retained_nothing: the allocated record is freed again, every other record,
+   every wait queue and all four timer structures are unchanged) *)
+From Slock Require Import Engine.TimeZero.
+
+Lemma TA_next_absent s : TA s -> aget (store s) (next s) = None.
+Proof.
+  intros T. destruct (aget (store s) (next s)) as [l|] eqn:G; auto. pose proof (ta_sk _ T _ _ G). lia.
+Qed.
+
+Theorem lock_timeout_immediate s conn c :
+  TA s -> forall e, In e (snd (fst (lock_step s conn c))) -> is_tr e = true ->
+  immediate_timeout conn c e /\ retained_nothing s (fst (fst (lock_step s conn c))).
+Proof.
+  intros T e I TR. split; [apply lock_step_timeout_replies with (s := s); auto|].
+  apply (lock_timeout_retains_nothing s conn c (TA_next_absent s T) e I TR).
+Qed.
